@@ -8,18 +8,22 @@
    and that `rep` are the (raw, storage) pairs handed out by NextID = the NewIDs reported to the client.
    `w_log w` are the IDs recorded in the workspace's log (new CUD rows and argument-tree rows).
 
-   The theorems are about the code after the repairs of F12 (adba86208), F41 (2dce4071c), F42 (cf81abbbf) and F43
-   (d9932b09c); the
-   last section keeps, as lemmas about the model variants selected by explicit flags, why each repair was needed.
+   The theorems are about the code after the repairs of F12 (adba86208), F41 (2dce4071c), F42 (cf81abbbf), F43
+   (d9932b09c) and F44 (ed8e8ed01); the last section keeps, as lemmas about the model variants selected by explicit
+   flags, why each repair was needed.
 
-   The only hypotheses left:
-     bounded h       (every ID named in h) + 1 + (number of rows in h) < 2^64.  Genuinely needed: the generator is
-                     a uint64 counter; an explicit ID of 2^64-2 followed by two creates makes NextID wrap whatever
-                     UpdateOnSync does (`generated_ids_are_user_ids_unbounded_refuted`).  For one event the same
-                     condition is `room 0 g rows`.
+   Hypotheses:
+     few_rows h      MaxRecordID + 1 + (number of rows in h) < 2^64, i.e. fewer than 2^63 rows were ever offered.
+                     This is all that is left of "no uint64 overflow": validation refuses explicit IDs above
+                     MaxRecordID = MaxInt64 (F44), refused events leave every state untouched (`run_valid_only`), so
+                     `bounded` - (every ID named in h) + 1 + rows < 2^64 - follows for the valid events
+                     (`bounded_valid_only`, Link.v).  The counter is a uint64: some such bound is unavoidable.
+                     `log_ids_distinct`, `model_traces_satisfy_the_oracle` and the single-event statement
+                     (`room 0 g rows`) still take `bounded` directly: their hypotheses (`hist_fresh`) or conclusions
+                     (the model trace) mention the refused events too.
      singles_ok h    singleton IDs supplied by the registry lie in the singleton range (C10's subject)
    and, for `stored_ids_distinct` / `log_ids_distinct`, `explicit_above_singletons` (`explicit_apart`) and `hist_fresh`
-   (see there; F43 fixed by d9932b09c, F44 open, F45 triaged) *)
+   (see there; F45 triaged in findings/C04/F45.md) *)
 From Coq Require Import List NArith Lia.
 From V Require Import Lib.Check Gen.Params C04_RecordIDs.Model C04_RecordIDs.Proofs C04_RecordIDs.Link.
 Import ListNotations.
@@ -41,6 +45,10 @@ Lemma plans_shared : c04_plans_shared = true.
 Proof. reflexivity. Qed.
 Lemma sync_prepass : c04_sync_prepass = true.
 Proof. reflexivity. Qed.
+(* validation refuses explicit IDs above MaxRecordID = MaxInt64 (F44, ed8e8ed01); the bound is inclusive: an explicit
+   ID of MaxInt64 is accepted and the next generated ID is 2^63 - still unique and a user ID, `few_rows` accounts for it *)
+Lemma explicit_ids_bounded_by_validation : c04_max_record_id = 9223372036854775807.
+Proof. reflexivity. Qed.
 Lemma update_on_sync_guarded : c04_update_on_sync_guarded = true.
 Proof. reflexivity. Qed.
 
@@ -49,21 +57,21 @@ Proof. reflexivity. Qed.
    >= FirstUserRecordID, so never null, raw or reserved *)
 Theorem generated_ids_are_user_ids :
   forall h ws ev w' ev' rep,
-  bounded (h ++ [IEvent ws ev]) -> singles_ok (h ++ [IEvent ws ev]) ->
+  few_rows (h ++ [IEvent ws ev]) -> singles_ok (h ++ [IEvent ws ev]) ->
   step_event (run st_init h ws) ev = (w', Accepted ev' rep) ->
   forall x, In x (map snd rep) ->
     c04_first_user_id <= x /\ x < w_next w' /\ is_raw x = false /\ is_reserved x = false /\ x <> 0.
 Proof.
   intros h ws ev w' ev' rep HB HS E x I.
-  destruct (generated_ids_proved _ _ h ws ev w' ev' rep HB HS E) as (CH & G & _).
+  destruct (generated_ids_few_proved _ _ h ws ev w' ev' rep HB HS E) as (CH & G & _).
   destruct (chain_bounds _ _ _ CH x I) as [L U].
   assert (F : c04_first_user_id <= x) by lia.
   exact (conj F (conj U (conj (user_not_raw x F) (conj (user_not_reserved x F) (user_not_null x F))))).
 Qed.
 
-(* `bounded` cannot be dropped while explicit IDs may be as large as MaxUint64-1 (F44): NextID itself wraps, and a
-   generated ID that looks raw is even rewritten through the plan.  With the proposed bound MaxRecordID = MaxInt64 on
-   explicit IDs the hypothesis only says that fewer than 2^63 rows were ever created. *)
+(* the old shape (before F44): while explicit IDs could be as large as MaxUint64-1, NextID itself wrapped, and a
+   generated ID that looked raw was even rewritten through the plan; `bounded` was then a hypothesis about the
+   client's IDs.  (With validation's bound in the source the premise of this lemma is absurd.) *)
 Theorem generated_ids_are_user_ids_unbounded_refuted :
   c04_max_record_id = 18446744073709551615 ->   (* validation puts no upper bound on explicit IDs: finding F44 *)
   exists h ws ev w' ev' rep, singles_ok (h ++ [IEvent ws ev])
@@ -82,10 +90,10 @@ Qed.
 (* the IDs of one event are handed out in strictly increasing order, starting at the generator's value *)
 Theorem ids_strictly_increasing :
   forall h ws ev w' ev' rep,
-  bounded (h ++ [IEvent ws ev]) -> singles_ok (h ++ [IEvent ws ev]) ->
+  few_rows (h ++ [IEvent ws ev]) -> singles_ok (h ++ [IEvent ws ev]) ->
   step_event (run st_init h ws) ev = (w', Accepted ev' rep) ->
   chain (w_next (run st_init h ws)) (map snd rep) (w_next w').
-Proof. intros h ws ev w' ev' rep HB HS E. exact (proj1 (generated_ids_proved _ _ h ws ev w' ev' rep HB HS E)). Qed.
+Proof. intros h ws ev w' ev' rep HB HS E. exact (proj1 (generated_ids_few_proved _ _ h ws ev w' ev' rep HB HS E)). Qed.
 
 (* ================= 2. unique per workspace, including after recovery ================= *)
 (* for every history h (events of any workspaces - new or synced, explicit IDs anywhere - and restarts at any
@@ -93,20 +101,26 @@ Proof. intros h ws ev w' ev' rep HB HS E. exact (proj1 (generated_ids_proved _ _
    recorded in that workspace's log; and the log grows by exactly the stored IDs of the event *)
 Theorem unique_per_ws :
   forall h ws ev w' ev' rep,
-  bounded (h ++ [IEvent ws ev]) -> singles_ok (h ++ [IEvent ws ev]) ->
+  few_rows (h ++ [IEvent ws ev]) -> singles_ok (h ++ [IEvent ws ev]) ->
   step_event (run st_init h ws) ev = (w', Accepted ev' rep) ->
   NoDup (map snd rep)
   /\ (forall x, In x (map snd rep) -> ~ In x (w_log (run st_init h ws)))
   /\ w_log w' = w_log (run st_init h ws) ++ event_ids ev'.
-Proof. intros h ws ev w' ev' rep HB HS. exact (unique_proved _ _ h ws ev w' ev' rep HB HS (or_introl arg_pass_syncs)). Qed.
+Proof. intros h ws ev w' ev' rep HB HS. exact (unique_few_proved _ _ h ws ev w' ev' rep HB HS arg_pass_syncs). Qed.
 
 (* the rows written by ONE accepted event carry pairwise distinct storage IDs - generated, explicit and singleton
-   IDs together (`event_ids ev'` = IDs of the stored creates and argument rows).  `explicit_above_singletons`: a
-   sync client does not pick IDs from the singleton band.  Written so that it is valid for the code with and
-   without the pre-pass of eventType.regenerateIDs that feeds every explicit ID to UpdateOnSync before the first
-   NextID (translator flag c04_sync_prepass, repair of F43): without it the explicit IDs of the event must lie below
-   the generator (`explicit_below`), with it nothing more is asked. *)
+   IDs together (`event_ids ev'` = IDs of the stored creates and argument rows), in whatever order raw and explicit
+   rows come (eventType.regenerateIDs feeds every explicit ID to UpdateOnSync before the first NextID, F43).
+   `explicit_above_singletons`: a sync client does not pick IDs from the singleton band. *)
 Theorem stored_ids_distinct :
+  forall h ws ev w' ev' rep,
+  few_rows (h ++ [IEvent ws ev]) -> singles_ok (h ++ [IEvent ws ev]) -> explicit_above_singletons ev ->
+  step_event (run st_init h ws) ev = (w', Accepted ev' rep) ->
+  NoDup (event_ids ev').
+Proof. intros h ws ev w' ev' rep HB HS HX. exact (stored_ids_distinct_few_proved _ _ h ws ev w' ev' rep HB HS HX sync_prepass). Qed.
+
+(* the same for the code with or without that pre-pass: without it the event's explicit IDs must lie below the generator *)
+Theorem stored_ids_distinct_with_or_without_prepass :
   forall h ws ev w' ev' rep,
   bounded (h ++ [IEvent ws ev]) -> singles_ok (h ++ [IEvent ws ev]) ->
   explicit_above_singletons ev ->
@@ -114,14 +128,6 @@ Theorem stored_ids_distinct :
   step_event (run st_init h ws) ev = (w', Accepted ev' rep) ->
   NoDup (event_ids ev').
 Proof. exact (stored_ids_distinct_hist_proved _ _). Qed.
-
-Theorem stored_ids_distinct_with_prepass :
-  c04_sync_prepass = true ->
-  forall h ws ev w' ev' rep,
-  bounded (h ++ [IEvent ws ev]) -> singles_ok (h ++ [IEvent ws ev]) -> explicit_above_singletons ev ->
-  step_event (run st_init h ws) ev = (w', Accepted ev' rep) ->
-  NoDup (event_ids ev').
-Proof. intros PP h ws ev w' ev' rep HB HS HX. exact (stored_ids_distinct_hist_proved _ _ h ws ev w' ev' rep HB HS HX (or_introl PP)). Qed.
 
 (* F43: without the pre-pass the hypothesis `explicit_below` cannot be dropped - a synced event that creates a raw
    row and then a row with the explicit ID the generator is about to hand out stores both under that ID *)
@@ -176,10 +182,10 @@ Qed.
 
 (* recovery: the rebuilt generator is above every ID in the log of its workspace, never below FirstUserRecordID *)
 Theorem recovery_dominates_log :
-  forall h ws, bounded h -> singles_ok h ->
+  forall h ws, few_rows h -> singles_ok h ->
   let w := run st_init (h ++ [IRestart]) ws in
   Forall (fun x => x < w_next w) (w_log w) /\ c04_first_user_id <= w_next w.
-Proof. exact (recovery_dominates_proved _ _). Qed.
+Proof. exact (recovery_dominates_few_proved _ _). Qed.
 
 (* ================= 3. raw IDs are substituted consistently ================= *)
 (* for every valid event and generator state, regeneration yields a stored event and a reported mapping that are a
@@ -271,7 +277,7 @@ Definition ex_event : event :=
   mkEv false [] [mkRow 1 0 [0; 3] 0; mkRow 2 1 [1; 200002] 0; mkRow 3 2 [3; 1] 0] [mkRow 200001 0 [2; 0] 0].
 
 Example history_nonvacuous :
-  boundedb (ex_history ++ [IEvent 1 ex_event]) = true
+  boundedb (ex_history ++ [IEvent 1 ex_event]) = true /\ few_rowsb (ex_history ++ [IEvent 1 ex_event]) = true
   /\ singles_okb (ex_history ++ [IEvent 1 ex_event]) = true
   /\ w_next (run st_init ex_history 1) = 200013
   /\ w_log (run st_init ex_history 1) = [200001; 200002; 65538; 200010; 200011; 70000; 200012]
@@ -297,6 +303,17 @@ Example stored_ids_distinct_nonvacuous :
   /\ w_next (run st_init ex_history 2) = 200004
   /\ match snd (step_event (run st_init ex_history 2) ev) with Accepted ev' _ => event_ids ev' | Rejected => [] end
      = [200005; 70001; 65538; 200004; 200002].
+Proof. vm_compute. repeat split. Qed.
+
+Example max_record_id_nonvacuous :
+  (* the bound of validation is inclusive: MaxInt64 is accepted, 2^63 is refused; after MaxInt64 the generator hands
+     out 2^63 - a user ID the workspace never stored, covered by `few_rows` *)
+  let h := [IEvent 1 (mkEv true [] [mkRow 9223372036854775807 0 [0; 0] 0] [])] in
+  let ev := mkEv false [] [mkRow 1 0 [0; 0] 0] [] in
+  few_rowsb (h ++ [IEvent 1 ev]) = true
+  /\ valid (mkEv true [] [mkRow 9223372036854775808 0 [0; 0] 0] []) = false
+  /\ w_next (run st_init h 1) = 9223372036854775808
+  /\ snd (step_event (run st_init h 1) ev) = Accepted (mkEv false [] [mkRow 9223372036854775808 0 [0; 0] 0] []) [(1, 9223372036854775808)].
 Proof. vm_compute. repeat split. Qed.
 
 Example recovery_nonvacuous :
@@ -325,7 +342,7 @@ Print Assumptions generated_ids_are_user_ids_unbounded_refuted.
 Print Assumptions ids_strictly_increasing.
 Print Assumptions unique_per_ws.
 Print Assumptions stored_ids_distinct.
-Print Assumptions stored_ids_distinct_with_prepass.
+Print Assumptions stored_ids_distinct_with_or_without_prepass.
 Print Assumptions stored_ids_distinct_without_prepass_refuted.
 Print Assumptions log_ids_distinct.
 Print Assumptions log_ids_distinct_refuted_reused_explicit_id.
